@@ -1,6 +1,7 @@
 package main
 
 import (
+	"os"
 	"fmt"
 	"go/ast"
 	"go/token"
@@ -250,6 +251,8 @@ func (x *Exec) methodRecv(fr *Frame, recvExpr ast.Expr, sel *types.Selection, st
 
 // ---------------------------------------------------------------- invoke
 
+var dbgCalls = os.Getenv("GOVC_DEBUG_CALLS")
+
 func (x *Exec) invoke(fr *Frame, pc *preparedCall, st *State, k func(*State, []Value)) {
 	if pc.closure != nil && pc.closure.Lit != nil {
 		x.inlineClosure(fr, pc, st, k)
@@ -260,6 +263,9 @@ func (x *Exec) invoke(fr *Frame, pc *preparedCall, st *State, k func(*State, []V
 		return
 	}
 	name := funcFullName(pc.fn)
+	if dbgCalls != "" && strings.Contains(name, dbgCalls) {
+		fmt.Fprintf(os.Stderr, "call %s\n", name)
+	}
 	if g := metricsGhost(pc.recvExpr); g != "" {
 		if x.metricsModel(st, g, pc, k) {
 			return
@@ -525,6 +531,9 @@ func (x *Exec) metricsModel(st *State, g string, pc *preparedCall, k func(*State
 }
 
 func (x *Exec) isNoop(name string, pc *preparedCall) bool {
+	if name == "log/slog.LevelVar.Set" {
+		return false // modelled: the logger's level is observable (C19)
+	}
 	if strings.HasPrefix(name, "log/slog.") {
 		return true
 	}
